@@ -6,7 +6,7 @@ import (
 
 func init() {
 	Registry["C17"] = &Spec{
-		Explanation: "Decides structural necessary conditions of 'a clean static check means no static-class failure at run time' by cross-checking the two implementations of the typing discipline, both tables being extracted from the code on every run: (1) for every AST position at which the interpreter demands a type (evaluateExprAs(st, <node>.<field>, expectX), expectation combinators resolved), the checker calls checkExpression on the same position with one of the accepted types - 'any' only where the interpreter accepts anything or on an arm selected when the operand's type could not be inferred (which comes with its own error); (2) the builtins dispatched by the statement runner / origin handler are exactly the statement / origin entries of analysis.Builtins, with equal arity, parameter types (parseArg sequence) and origin return types; (3) declared type names, parseVar arms, expect* functions and Value types are in bijection; (4) every send-all source shape the interpreter rejects has a diagnostic on the checker's arm for that kind; (5) the kinds for undeclared variable, unknown function, wrong arity, invalid type and type mismatch have error severity.",
+		Explanation: "Decides structural necessary conditions of 'a clean static check means no static-class failure at run time' by cross-checking the two implementations of the typing discipline, both tables being extracted from the code on every run: (1) for every AST position at which the interpreter demands a type (evaluateExprAs(st, <node>.<field>, expectX), expectation combinators resolved), the checker calls checkExpression on the same position with one of the accepted types - 'any' only where the interpreter accepts anything or on an arm selected when the operand's type could not be inferred (which comes with its own error); (2) the builtins dispatched by the statement runner / origin handler are exactly the statement / origin entries of analysis.Builtins, with equal arity, parameter types (parseArg sequence) and origin return types; (3) declared type names, parseVar arms, expect* functions and Value types are in bijection; (4) every send-all source shape the interpreter rejects has a diagnostic on the checker's arm for that kind; (5) the kinds for undeclared variable, unknown function, wrong arity, invalid type and type mismatch have error severity; the per-statement fields of the check state are assigned for the statement at hand before anything reads them (a send-all flag left behind by a previous statement would hide or invent a send-all shape error).",
 		NotDecided:  []string{"soundness as a theorem over all programs", "failures that depend on variable values (an account variable holding 'world' under send-all)", "that the checker propagates declared variable types correctly through assertHasType (its arithmetic, not its shape)"},
 		Assumptions: []string{A1, A4},
 		Run: func(c *rules.Ctx) {
@@ -26,6 +26,8 @@ func init() {
 			c.InferredVariableTypeIsDeclared(ob8)
 			ob9 := c.R.Ob("C17.9", "typestate/save-restore", "scoped overrides of the checker's send-all state restore the value read on entry (a leaked setting hides a send-all shape error)", 3)
 			c.SaveRestoreClosures(ob9)
+			ob11 := c.R.Ob("C17.11", "typestate/per-statement", "the per-statement fields of the check state (send-all flag, emptied accounts, unbounded account met) are assigned for the statement at hand before anything reads them", 1)
+			c.PerStatementStateAssignedBeforeRead(ob11, relAnalysis, "CheckResult")
 			ob10 := c.R.Ob("C17.10", "ctrl/world-diag", "a diagnostic about an @world overdraft address does not depend on the overdraft being bounded", 1)
 			c.WorldDiagnosticUnconditional(ob10)
 			ob5 := c.R.Ob("C17.5", "ctrl/severity", "the diagnostics for undeclared variable, unknown function, wrong arity, invalid type and type mismatch have error severity", 5)
@@ -33,7 +35,7 @@ func init() {
 		},
 	}
 	Registry["C16"] = &Spec{
-		Explanation: "Decides structural necessary conditions of 'the checker never cries wolf and is exact about variable names': (1) at every AST position typed by both sides the checker requires only types the interpreter accepts (tables extracted from the code, see C17); (2) the send-all diagnostic for an overdraft source is emitted only when the overdraft is unbounded, which is exactly when the interpreter rejects it; (3) name bookkeeping in the variable arm of the expression checker: the unbound diagnostic is created only on the lookup-miss edge, for the name and range of the node at hand; the resolution is recorded only on the hit edge under that node; the name leaves the unused set on both edges; duplicates are reported only on the already-declared edge, otherwise the declaration enters both the declared and the unused set; unused diagnostics are produced after all declarations and statements were traversed; (4) every expression child of every node is handed to the expression checker (S2).",
+		Explanation: "Decides structural necessary conditions of 'the checker never cries wolf and is exact about variable names': (1) at every AST position typed by both sides the checker requires only types the interpreter accepts (tables extracted from the code, see C17); (2) the send-all diagnostic for an overdraft source is emitted only when the overdraft is unbounded, which is exactly when the interpreter rejects it; (3) name bookkeeping in the variable arm of the expression checker: the unbound diagnostic is created only on the lookup-miss edge, for the name and range of the node at hand; the resolution is recorded only on the hit edge under that node; the name leaves the unused set on both edges; duplicates are reported only on the already-declared edge, otherwise the declaration enters both the declared and the unused set; unused diagnostics are produced after all declarations and statements were traversed; (4) every expression child of every node is handed to the expression checker (S2); (5) the per-statement fields of the check state (send-all flag, emptied accounts, unbounded account met) are assigned for the statement at hand, on every path, before anything reads them - so nothing a previous statement left behind decides a diagnostic.",
 		NotDecided:  []string{"that every statically valid script is accepted (needs the checker's semantics, not its shape)", "exactly-once reporting as a count", "literal allotment sum diagnostics beyond their construction guard"},
 		Assumptions: []string{A1, A4},
 		Run: func(c *rules.Ctx) {
@@ -52,6 +54,8 @@ func init() {
 			c.InferredVariableTypeIsDeclared(ob8)
 			ob6 := c.R.Ob("C16.6", "typestate/scoped", "a field of the check state overwritten inside the recursive traversals is one that the save/restore helpers put back (nested nodes do not wipe what the enclosing node collected)", 2)
 			c.RecursiveStateScoped(ob6, relAnalysis, "CheckResult")
+			ob9 := c.R.Ob("C16.9", "typestate/per-statement", "the per-statement fields of the check state (send-all flag, emptied accounts, unbounded account met) are assigned for the statement at hand before anything reads them", 1)
+			c.PerStatementStateAssignedBeforeRead(ob9, relAnalysis, "CheckResult")
 			ob7 := c.R.Ob("C16.7", "sibling/typing-visits", "every expression position the interpreter evaluates is visited by the checker (a use inside an unvisited operand is neither resolved nor marked used)", 12)
 			c.CheckerNotWeaker(ob7, t)
 		},
